@@ -3,7 +3,7 @@
    PL.Mesh.Lstsq (hand-written) for Gradient; PL.Mesh.HotSpot (hand-written, executable, tied by correspondence) for
    HotSpot.calc.  Only statements, `exact`, Print Assumptions. *)
 From Coq Require Import Reals ZArith List Bool.
-From PL Require Import Mesh.Mat3 Mesh.Gradient3D Mesh.Lstsq Mesh.HotSpot Mesh.HotSpotSpec.
+From PL Require Import Mesh.Mat3 Mesh.Gradient3D Mesh.Lstsq Mesh.HotSpot Mesh.HotSpotSpec Mesh.Surface.
 From PLgen Require Import GenGradient.
 Import ListNotations.
 
@@ -101,6 +101,24 @@ Theorem hotspot_selection_is_component (E : list entry) rem s i : (s < n E)%nat 
   (get (hs_sel E rem s) i = true <-> conn E rem s i).
 Proof. exact (fun Hs Hr => HotSpotSpec.sel_is_component E rem s Hs Hr i). Qed.
 
+(* ---- Surface3D.is_at_surface on axis-parallel hexahedral blocks (Mesh/Surface.v; tied by harness stage `surface_model`):
+   the number of cells that contain grid node (i,j,k), counted over the literal list of all cells, has the closed form;
+   the code's solid-angle formula gives PI/2 at an orthogonal corner; and the decision Esum < 4 PI - 1e-5 flags exactly
+   the boundary nodes -- for every block size *)
+Theorem surface_incident_closed_form nx ny nz i j k :
+  Surface.incident nx ny nz i j k = (Surface.inc1 nx i * Surface.inc1 ny j * Surface.inc1 nz k)%nat.
+Proof. exact (Surface.incident_closed_form nx ny nz i j k). Qed.
+Theorem surface_orthogonal_corner_excess : Surface.excess (PI / 2) (PI / 2) (PI / 2) = (PI / 2)%R.
+Proof. exact Surface.orthogonal_corner_excess. Qed.
+Theorem surface_flags_exactly_boundary nx ny nz i j k :
+  (1 <= nx)%nat -> (1 <= ny)%nat -> (1 <= nz)%nat ->
+  (0 <= i <= Z.of_nat nx)%Z -> (0 <= j <= Z.of_nat ny)%Z -> (0 <= k <= Z.of_nat nz)%Z ->
+  Surface.flagged nx ny nz i j k <-> Surface.on_boundary nx ny nz i j k.
+Proof. exact (Surface.flagged_iff_boundary nx ny nz i j k). Qed.
+Theorem surface_hyp_sat :
+  Surface.incident 3 2 2 0 1 1 = 4%nat /\ Surface.incident 3 2 2 1 1 1 = 8%nat /\ Surface.incident 3 2 2 3 2 0 = 1%nat /\ Surface.incident 1 1 1 1 0 1 = 1%nat.
+Proof. exact Surface.flagged_examples. Qed.
+
 Print Assumptions hex_linear_exact.
 Print Assumptions tet_linear_exact.
 Print Assumptions inv_contract_satisfiable.
@@ -120,3 +138,7 @@ Print Assumptions hotspot_above_is_threshold.
 Print Assumptions hotspot_labels_are_components.
 Print Assumptions hotspot_numbered_by_descending_peak.
 Print Assumptions hotspot_selection_is_component.
+Print Assumptions surface_incident_closed_form.
+Print Assumptions surface_orthogonal_corner_excess.
+Print Assumptions surface_flags_exactly_boundary.
+Print Assumptions surface_hyp_sat.
